@@ -68,7 +68,8 @@ def generate(outdir):
             open(path, 'w').write(txt)
     from . import fragments
     try:
-        txt = fragments.generate(load('solver'), util, {'solver': load('solver'), 'controller': load('controller'), 'trust_region': load('trust_region'), 'util': load('util')})
+        txt = fragments.generate(load('solver'), util, {'solver': load('solver'), 'controller': load('controller'), 'trust_region': load('trust_region'), 'util': load('util')},
+                                 consts=ctrl.consts)
         path = os.path.join(outdir, 'Gen_solver.v')
         if not (os.path.exists(path) and open(path).read() == txt):
             open(path, 'w').write(txt)
@@ -87,7 +88,7 @@ _ntables = 0
 
 
 def count_functions():
-    return len(spec.UTIL_FUNCS) + len(spec.MODEL_FUNCS) + len(spec.CONTROLLER_FUNCS) + 3
+    return len(spec.UTIL_FUNCS) + len(spec.MODEL_FUNCS) + len(spec.CONTROLLER_FUNCS) + 4
 
 
 def count_tables():
